@@ -1,5 +1,5 @@
 (* C06, part I (response side): the chunk-length line of a chunked response: the byte loop with the look-ahead
-   data_probe_chunk_length, line assembly under every chunking (premise bd_res_line_ok), the line that ends the data. *)
+   data_probe_chunk_length (which, since the repair of finding K1, scans out_buf ++ the unconsumed bytes of the chunk), line assembly under every chunking (premise bd_res_line_ok), the line that ends the data. *)
 Require Import Htp.Model.MConnTypes Htp.Model.MBstr Htp.Model.MTxCommon Htp.Model.MResLine Htp.Model.MTxRes Htp.Model.MRes.
 Require Import Htp.Spec.SBody Htp.Proof.PBody Htp.Proof.PBodyRes Htp.Proof.PBodyResRun Htp.Proof.PBodyResId.
 Local Open Scope Z_scope.
@@ -124,7 +124,7 @@ Lemma bd_rs_length_loop : forall pre c fuel tl,
   bd_rs_wf c -> (k_consume (c_out c) <= k_read (c_out c))%nat ->
   bd_rs_rest c = pre ++ tl -> bd_no_lf pre = true -> (length (bd_rs_rest c) < fuel)%nat ->
   match tl with [] => True | b :: _ => b = LF end ->
-  bd_probe_ok (rs_unconsumed c) pre = true ->
+  bd_probe_ok (bd_rs_pending c ++ rs_unconsumed c) pre = true ->
   match tl with
   | [] => rs_chunked_length_loop g fuel c =
           (ST_DATA_BUFFER, match pre with [] => c | _ => bd_rs_copied (length pre) (Some (last pre 0%N)) c end)
@@ -147,16 +147,18 @@ Proof.
     destruct W as (d & Hd & Hl & Hrd).
     assert (Hu : rs_unconsumed c1 = rs_unconsumed c ++ [a]).
     { apply (bd_rs_unconsumed_copied 1 (Some a) c d [a] (pre ++ tl)); auto. }
-    rewrite Hu.
-    assert (Hcond : (a =? LF)%N || negb (rs_is_chunked_ctl_char a) && negb (rs_data_probe_chunk_length (rs_unconsumed c ++ [a])) = false).
+    change (rs_dbytes (k_buf (c_out c1))) with (bd_rs_pending c).
+    rewrite Hu, app_assoc.
+    assert (Hcond : (a =? LF)%N || negb (rs_is_chunked_ctl_char a) && negb (rs_data_probe_chunk_length ((bd_rs_pending c ++ rs_unconsumed c) ++ [a])) = false).
     { apply negb_true_iff in Ha. rewrite Ha. cbn [orb]. apply orb_true_iff in Hp1. destruct Hp1 as [E|E]; rewrite E; cbn; [reflexivity|apply andb_false_r]. }
     rewrite Hcond.
     assert (W1 : bd_rs_wf c1) by (apply (bd_rs_wf_copied 1 (Some a) c [a] (pre ++ tl)); [exists d; auto|exact Hr|reflexivity]).
     assert (Hr1 : bd_rs_rest c1 = pre ++ tl) by (apply (bd_rs_rest_copied 1 _ c _ [a]); [exact Hr|reflexivity]).
     assert (Hc1 : (k_consume (c_out c1) <= k_read (c_out c1))%nat) by (cbn; lia).
     assert (Hf1 : (length (bd_rs_rest c1) < fuel)%nat) by (rewrite Hr1; rewrite Hr in Hf; cbn [length] in Hf; lia).
-    rewrite <- Hu in Hp2.
-    specialize (IH c1 fuel tl W1 Hc1 Hr1 Hnl Hf1 Htl Hp2).
+    assert (Hp2' : bd_probe_ok (bd_rs_pending c1 ++ rs_unconsumed c1) pre = true).
+    { change (bd_rs_pending c1) with (bd_rs_pending c). rewrite Hu, app_assoc. exact Hp2. }
+    specialize (IH c1 fuel tl W1 Hc1 Hr1 Hnl Hf1 Htl Hp2').
     destruct tl as [|b tl'].
     + rewrite IH. f_equal. destruct pre as [|p pre']; [reflexivity|]. unfold c1. rewrite bd_rs_copied_add. reflexivity.
     + destruct IH as (f & IH). exists f. rewrite IH. unfold c1. rewrite bd_rs_copied_add. reflexivity.
@@ -185,7 +187,7 @@ Definition bd_rs_line_state (v : Z) : res_state := if 0 <? v then RES_BODY_CHUNK
 
 Lemma bd_rs_length_final o t c l tl :
   bd_rs_inv o c -> c_out_state c = RES_BODY_CHUNKED_LENGTH -> k_consume (c_out c) = k_read (c_out c) ->
-  bd_rs_rest c = l ++ LF :: tl -> bd_no_lf l = true -> bd_probe_ok [] l = true ->
+  bd_rs_rest c = l ++ LF :: tl -> bd_no_lf l = true -> bd_probe_ok (bd_rs_pending c) l = true ->
   (length (bd_rs_pending c) + length l + 1 <= g_field_limit_hard g)%nat ->
   tx_slot c o = Some t ->
   let line := bd_rs_pending c ++ l ++ [LF] in
@@ -216,7 +218,7 @@ Proof.
   { exists d; auto. }
   { lia. }
   { unfold rs_bytes_fuel. rewrite Hlen. unfold bd_rs_rest. rewrite Hd, skipn_length. lia. }
-  { rewrite Hun. exact Hpr. }
+  { rewrite Hun, app_nil_r. exact Hpr. }
   rewrite Hloop. clear Hloop.
   assert (Hpiece : rs_sub d (k_read (c_out c)) (k_read (c_out c) + S (length l)) = l ++ [LF]).
   { unfold rs_sub. replace (k_read (c_out c) + S (length l) - k_read (c_out c))%nat with (S (length l)) by lia.
